@@ -706,6 +706,24 @@ func (fc *FuncCtx) assumeEnsuresSubst(st, pre *State, spec *FuncSpec, key string
 	for _, f := range fresh {
 		isFresh[f] = true
 	}
+	// ghost variables of the callee are universally quantified in its postconditions
+	var gbound []*Term
+	if len(spec.Ghosts) > 0 {
+		nv := map[string]SV{}
+		for k, x := range vars {
+			nv[k] = x
+		}
+		for _, g := range spec.Ghosts {
+			so, gt, err := v.resolveTypeOrSort(g.Type)
+			if err != nil {
+				panic(specError{err.Error()})
+			}
+			b := c.BoundVar(g.Name, so)
+			gbound = append(gbound, b)
+			nv[g.Name] = SV{T: b, GoT: gt}
+		}
+		post.vars = nv
+	}
 	var conj []*Term
 	var flatten func(t *Term)
 	flatten = func(t *Term) {
@@ -721,6 +739,10 @@ func (fc *FuncCtx) assumeEnsuresSubst(st, pre *State, spec *FuncSpec, key string
 		t, err := post.EvalBool(e.E)
 		if err != nil {
 			panic(specError{fmt.Sprintf("ensures of %s (line %d): %v", key, e.Line, err)})
+		}
+		if t.hasBound && len(gbound) > 0 {
+			conj = append(conj, c.Quant(true, gbound, t))
+			continue
 		}
 		flatten(t)
 	}
